@@ -566,7 +566,7 @@ Definition bad (l : list N) : list (N * N) := bad_from 0 l.
 
 (* ------------------------------------------------------------------ C33: snapshots over ticks *)
 
-Inductive mono_kind := MonoSingle | MonoKeys | MonoValue | BoundedVal.
+Inductive mono_kind := MonoSingle | MonoKeys | MonoValue | BoundedVal | NoPromise.
 
 Definition vle_b (a b : val) : bool :=
   match a, b with VN x, VN y => N.leb x y | _, _ => veqb a b end.
@@ -582,6 +582,7 @@ Definition snap_rel_b (k : mono_kind) (a b : list val) : bool :=
       forallb (fun e => match klookup (vfst e) (entries_map b) with Some w => vle_b (vsnd e) w | None => false end) a
   | BoundedVal =>
       forallb (fun e => match klookup (vfst e) (entries_map b) with Some w => veqb (vsnd e) w | None => false end) a
+  | NoPromise => true
   end.
 
 Fixpoint adj_all (R : list val -> list val -> bool) (l : list (list val)) : bool :=
